@@ -351,6 +351,7 @@ func C07(c *core.Ctx) error {
 	}
 	scns = append(scns, c07trees(probe, maxNodes, core.Quick(c.Tier))...)
 	scns = append(scns, c07forests(probe)...)
+	scns = append(scns, c07patternLists(probe)...)
 
 	// ---------------- run
 	outcomes := map[string]struct{}{}
@@ -672,6 +673,61 @@ func c07forests(probe string) []c07scn {
 			sort.Strings(exp)
 			out = append(out, c07scn{id: fmt.Sprintf("forest exclude lists alpha=%v alpha/inner=%v beta=%v top-level=%v", lists[pick[0]], lists[pick[1]], lists[pick[2]], rootList), cfg: root, files: files, expect: exp, open: open})
 		}
+	}
+	return out
+}
+
+// c07patternLists: exclude-subpkg-regex is a LIST of patterns, each a regular expression of its own: a sub-package
+// is left out exactly when one of them, taken alone, matches its path. Every ordered selection of one to three
+// patterns from a pool whose members carry inline flags, groups and alternations (what goes wrong when patterns
+// are glued together or share state).
+func c07patternLists(probe string) []c07scn {
+	var out []c07scn
+	P := func(s string) string { return core.ModPath + "/" + s }
+	// (two spellings of one name may not sit side by side: import paths must differ by more than letter case)
+	subs := []string{"a", "b", "a/legacy", "b/LEGACY", "a/gen", "b/Gen", "a/tmp", "b/TMP", "a/ok", "b/OK", "a/okay"}
+	files := map[string]string{"r/x.go": "package r\n\ntype I interface{ M() }\n"}
+	for _, sp := range subs {
+		files["r/"+sp+"/x.go"] = fmt.Sprintf("package %s\n\ntype I interface{ M() }\n", strings.ToLower(filepath.Base(sp)))
+	}
+	pool := []string{`(?i)/LEGACY$`, `/Gen$`, `(?i:/TMP)$`, `/ok$|/OK$`}
+	var lists [][]string
+	var rec func(cur []string)
+	rec = func(cur []string) {
+		if len(cur) > 0 {
+			lists = append(lists, append([]string{}, cur...))
+		}
+		if len(cur) == 3 {
+			return
+		}
+	next:
+		for _, p := range pool {
+			for _, c := range cur {
+				if c == p {
+					continue next
+				}
+			}
+			rec(append(cur, p))
+		}
+	}
+	rec(nil)
+	for _, l := range lists {
+		root := c07baseRoot(probe)
+		root["packages"] = core.M{P("r"): core.M{"config": core.M{"all": true, "recursive": true, "exclude-subpkg-regex": toAny(l)}}}
+		exp := []string{P("r") + "|I|MockI"}
+		for _, sp := range subs {
+			excluded := false
+			for _, pat := range l {
+				if regexp.MustCompile(pat).MatchString(P("r/" + sp)) {
+					excluded = true
+				}
+			}
+			if !excluded {
+				exp = append(exp, P("r/"+sp)+"|I|MockI")
+			}
+		}
+		sort.Strings(exp)
+		out = append(out, c07scn{id: fmt.Sprintf("exclusion pattern list %q", l), cfg: root, files: files, expect: exp})
 	}
 	return out
 }
